@@ -23,7 +23,7 @@ theorem flight_budget (c : Cfg) (pn : Nat) (ops : List Builder.Op) (m : Int) (hm
 /-- with the budget `datagrams_to_send` computes: at most `max (cwnd - in flight) 0`
     bytes, or one datagram (`max_datagram_size`) more than nothing when a probe is
     pending -/
-theorem flight_budget_conn (c : Cfg) (pn : Nat) (ops : List Builder.Op) (cwnd inFlight : Int) (probe : Bool)
+theorem flight_budget_formula (c : Cfg) (pn : Nat) (ops : List Builder.Op) (cwnd inFlight : Int) (probe : Bool)
     (hm : c.maxFlight = some (maxFlight cwnd inFlight probe c.maxDatagramSize))
     (hd : DisciplinedRun (St.init c pn) ops) :
     inflightTotal (allOut (Builder.run (St.init c pn) ops).1) ≤
@@ -32,7 +32,35 @@ theorem flight_budget_conn (c : Cfg) (pn : Nat) (ops : List Builder.Op) (cwnd in
   unfold maxFlight at this
   cases probe <;> simp at this ⊢ <;> (try split at this) <;> omega
 
+/-- the budget `datagrams_to_send` hands to the builder does not depend on whether
+    the application has PINGs queued (`send_ping`): only a loss-detection probe may
+    exceed the window -/
+theorem flight_budget_ping_irrelevant (i : SendIn) (b : Bool) :
+    flightBudget { i with pingPending := b } = flightBudget i := rfl
+
+/-- "Apart from acknowledgement-only packets and one probe datagram per timeout,
+    an endpoint never puts more in-flight bytes on the wire than its congestion
+    window allows" — over a whole `datagrams_to_send` call of the connection-level
+    model (normal branch): whatever the path ledger, the connection IDs / token, the
+    queued application PINGs, and whatever the three packet-number spaces do with
+    the builder (a QuicPacketBuilderStop in one space does not end the call), the
+    bytes of the in-flight packets of all datagrams returned are at most
+    `max (cwnd - bytes_in_flight) 0`, or one `max_datagram_size` when that is less
+    and a probe is pending. -/
+theorem flight_budget_conn (p : Path) (i : SendIn) (hnc : i.closePending = false) (isClient : Bool)
+    (peerCidLen hostCidLen tokenLen pn : Nat) (ops : List Builder.Op)
+    (hd : DisciplinedRun (St.init (builderCfg p (connSendCall i isClient peerCidLen hostCidLen tokenLen pn ops)) pn) ops) :
+    inflightTotal (sendOut p (connSendCall i isClient peerCidLen hostCidLen tokenLen pn ops)) ≤
+      (if i.probePending then max (i.cwnd - i.bytesInFlight) i.maxDatagramSize else max (i.cwnd - i.bytesInFlight) 0) := by
+  have hm : (builderCfg p (connSendCall i isClient peerCidLen hostCidLen tokenLen pn ops)).maxFlight =
+      some (maxFlight i.cwnd i.bytesInFlight i.probePending
+        (builderCfg p (connSendCall i isClient peerCidLen hostCidLen tokenLen pn ops)).maxDatagramSize) := by
+    simp [builderCfg, connSendCall, flightBudget, hnc]
+  exact flight_budget_formula _ pn ops i.cwnd i.bytesInFlight i.probePending hm hd
+
 end AQ.Props.C08
 
 #print axioms AQ.Props.C08.flight_budget
+#print axioms AQ.Props.C08.flight_budget_formula
 #print axioms AQ.Props.C08.flight_budget_conn
+#print axioms AQ.Props.C08.flight_budget_ping_irrelevant
